@@ -85,8 +85,30 @@ fn class_name(c: u64) -> String {
         ["absent", "< scale", "= scale", "> scale"][((c >> 7) & 3) as usize], FLAGS[((c >> 3) & 15) as usize], ["absent", "<= text length", "> text length"][(c & 7) as usize])
 }
 
+thread_local! {
+    /// history stage: the formatting call that FAILED (sink returned fmt::Error after `cap` bytes) on this thread
+    /// immediately before the case under check: (coefficient, scale, precision, cap)
+    static PRELUDE: std::cell::Cell<Option<(i128, u8, Option<usize>, usize)>> = const { std::cell::Cell::new(None) };
+}
+
+/// A sink that accepts `cap` bytes and then fails.
+struct LimitedSink { left: usize }
+impl std::fmt::Write for LimitedSink {
+    fn write_str(&mut self, s: &str) -> std::fmt::Result { if s.len() > self.left { self.left = 0; Err(std::fmt::Error) } else { self.left -= s.len(); Ok(()) } }
+}
+
+/// Format (a, f) with `prec` into a sink that fails after `cap` bytes; the error is the expected outcome.
+fn failed_write(a: i128, f: u8, prec: Option<usize>, cap: usize) {
+    use std::fmt::Write as _;
+    let d = Decimal::new_raw(a, f);
+    let mut sink = LimitedSink { left: cap };
+    let _ = catch(|| match prec { Some(p) => write!(sink, "{:.*}", p, d), None => write!(sink, "{}", d) });
+}
+
 pub fn case(stage: u64, a: i128, f: u8, prec: Option<usize>, width: Option<usize>, fi: usize, mode: RoundingMode, l: &mut Local) {
     let d = Decimal::new_raw(a, f);
+    let prelude = PRELUDE.with(|c| c.get());
+    let ptag = if prelude.is_some() { " [directly after a formatting call whose sink failed]" } else { "" };
     let (b, rc) = body(a, f, prec, mode);
     let want = layout(a < 0, &b, width, fi);
     let got = catch(|| fmt_flag!(fi, d, width, prec));
@@ -96,7 +118,7 @@ pub fn case(stage: u64, a: i128, f: u8, prec: Option<usize>, width: Option<usize
     let wc = match width { None => 0, Some(w) if w <= want.chars().count() && w <= b.len() + 1 => 1, _ => 2 };
     let c = code(stage, if rc.is_some() { mode_idx(mode) } else { 0 }, a < 0, rc, pc, fi, wc);
     if l.class(c) { l.sample(c, json!({"coeff": a.to_string(), "scale": f, "precision": prec, "width": width, "flags": FLAGS[fi], "mode": mode_name(mode), "expected": want})); }
-    let mk = || json!({"a": a.to_string(), "f": f, "prec": prec, "width": width, "fi": fi, "mode": mode_name(mode)});
+    let mk = || json!({"a": a.to_string(), "f": f, "prec": prec, "width": width, "fi": fi, "mode": mode_name(mode), "after_failed_write": prelude.map(|(pa, pf, pp, cap)| json!({"a": pa.to_string(), "f": pf, "prec": pp, "cap": cap}))});
     match got {
         Ok(s) => {
             l.outcome(fnv(s.as_bytes()));
@@ -105,7 +127,7 @@ pub fn case(stage: u64, a: i128, f: u8, prec: Option<usize>, width: Option<usize
                 let kind = if stripped(&s) == stripped(&want) { "sign/padding differs" } else { "digits differ" };
                 let pcn = ["precision absent", "precision < scale (rounding)", "precision = scale", "precision > scale (zero extension)"][pc as usize];
                 let rcn = match rc { Some(RemClass::Tie) => ", tie", Some(RemClass::Exact) => ", exact", Some(_) => ", inexact", None => "" };
-                l.violation(format!("Display flags '{}' | {}{}{} | {}", FLAGS[fi], pcn, rcn, if a < 0 { ", negative" } else { "" }, kind), || (format!("format!(\"{{:{}{}{}}}\", ({},{})) mode={} = {:?}, expected {:?}", FLAGS[fi], width.map(|w| w.to_string()).unwrap_or_default(), prec.map(|p| format!(".{}", p)).unwrap_or_default(), a, f, mode_name(mode), s, want), mk()));
+                l.violation(format!("Display flags '{}'{} | {}{}{} | {}", FLAGS[fi], ptag, pcn, rcn, if a < 0 { ", negative" } else { "" }, kind), || (format!("format!(\"{{:{}{}{}}}\", ({},{})) mode={} = {:?}, expected {:?}", FLAGS[fi], width.map(|w| w.to_string()).unwrap_or_default(), prec.map(|p| format!(".{}", p)).unwrap_or_default(), a, f, mode_name(mode), s, want), mk()));
             }
             // sub-oracle binding the layout model to Rust itself: scale 0, no precision == integer formatting
             if f == 0 && prec.is_none() {
@@ -124,8 +146,17 @@ pub fn replay(w: &Value) -> Vec<(String, String)> {
     let prev = RoundingMode::default();
     let mode = w["mode"].as_str().and_then(mode_from_name).unwrap_or(RoundingMode::RoundHalfEven);
     RoundingMode::set_default(mode);
-    run.seq(|l| case(0, w["a"].as_str().unwrap().parse().unwrap(), w["f"].as_u64().unwrap() as u8, w["prec"].as_u64().map(|x| x as usize),
-        w["width"].as_u64().map(|x| x as usize), w["fi"].as_u64().unwrap() as usize, mode, l));
+    run.seq(|l| {
+        let pre = &w["after_failed_write"];
+        if pre.is_object() {
+            let p = (pre["a"].as_str().unwrap().parse().unwrap(), pre["f"].as_u64().unwrap() as u8, pre["prec"].as_u64().map(|x| x as usize), pre["cap"].as_u64().unwrap() as usize);
+            failed_write(p.0, p.1, p.2, p.3);
+            PRELUDE.with(|c| c.set(Some(p)));
+        }
+        case(0, w["a"].as_str().unwrap().parse().unwrap(), w["f"].as_u64().unwrap() as u8, w["prec"].as_u64().map(|x| x as usize),
+            w["width"].as_u64().map(|x| x as usize), w["fi"].as_u64().unwrap() as usize, mode, l);
+        PRELUDE.with(|c| c.set(None));
+    });
     RoundingMode::set_default(prev);
     run.violations().into_iter().map(|(s, r)| (s, r.detail)).collect()
 }
@@ -172,6 +203,25 @@ pub fn run(tier: Tier) -> i32 {
         });
     }
     run.stage("(B) layout sweep", json!({"operands": lops.len(), "precisions": 8, "widths": "absent, 0..=60", "flag_sets": FLAGS, "modes": lmodes.len()}));
+    // (C) histories on one thread: a formatting call whose sink FAILS part-way (fmt::Error after cap bytes), directly
+    // followed by an ordinary format!: per-thread scratch state left behind by the aborted call must not leak into the
+    // next one (seeded change C11-h1)
+    {
+        let pre: Vec<(i128, u8, Option<usize>)> = vec![(-1234567890007, 4, None), (5, 1, Some(0)), (99999, 2, Some(1)), (i128::MAX, 18, Some(3)), (-1, 18, Some(30)), (0, 3, None), (1 << 64, 0, Some(2))];
+        let post: Vec<(i128, u8, Option<usize>)> = vec![(-7125, 3, Some(2)), (15, 1, Some(0)), (0, 0, None), (123456789, 4, Some(9)), (-5, 18, None), (25, 1, None)];
+        let mut hist: Vec<((i128, u8, Option<usize>), usize, (i128, u8, Option<usize>))> = Vec::new();
+        for &p in &pre { for cap in [0usize, 1, 2, 5, 11, 21] { for &q in &post { hist.push((p, cap, q)); } } }
+        for mode in [RoundingMode::RoundHalfEven, RoundingMode::RoundUp] {
+            run.par_for(&hist, || RoundingMode::set_default(mode), |&(p, cap, q), l| {
+                failed_write(p.0, p.1, p.2, cap);
+                PRELUDE.with(|c| c.set(Some((p.0, p.1, p.2, cap))));
+                case(0, q.0, q.1, q.2, None, 0, mode, l);
+                case(0, q.0, q.1, q.2, Some(12), 0, mode, l);
+                PRELUDE.with(|c| c.set(None));
+            });
+        }
+        run.stage("(C) format directly after a formatting call whose sink failed", json!({"histories": hist.len(), "sink_capacities": "0,1,2,5,11,21 bytes", "modes": 2}));
+    }
 
     let mut required: Vec<Vec<u64>> = Vec::new();
     for m in 0..8 { for neg in [false, true] { for rc in [RemClass::Exact, RemClass::BelowHalf, RemClass::Tie, RemClass::AboveHalf] {
